@@ -826,10 +826,93 @@ func ruleSLOOP(p *Program, r *Reporter) {
 				}
 			}
 		}
+		// the per-table loop may live in a helper that calls a closure of fn once per table:
+		// then that closure is the iteration, and what it writes must be created inside it
+		for _, b := range fn.Blocks {
+			for _, ins := range b.Instrs {
+				c, ok := ins.(*ssa.Call)
+				if !ok {
+					continue
+				}
+				callee := c.Call.StaticCallee()
+				if callee == nil || pkgOf(callee) != "server" || len(callee.Blocks) == 0 {
+					continue
+				}
+				for ai, a := range c.Call.Args {
+					mc, ok := a.(*ssa.MakeClosure)
+					if !ok || ai >= len(callee.Params) || !paramCalledInLoop(callee, ai) {
+						continue
+					}
+					body, _ := mc.Fn.(*ssa.Function)
+					if body == nil {
+						continue
+					}
+					inBody := map[*ssa.Function]bool{body: true}
+					for _, an := range body.AnonFuncs {
+						inBody[an] = true
+					}
+					for g := range inBody {
+						for _, gb := range g.Blocks {
+							for _, gi := range gb.Instrs {
+								mu, ok := gi.(*ssa.MapUpdate)
+								if !ok {
+									continue
+								}
+								var mk ssa.Value = mu.Map
+								if ld, ok := mk.(*ssa.UnOp); ok {
+									if fv, ok := ld.X.(*ssa.FreeVar); ok {
+										mk = resolveFreeVarCell(fv)
+										// a cell of the iteration closure captured by a nested closure
+									} else if al, ok := ld.X.(*ssa.Alloc); ok {
+										mk = nil
+										if refs := al.Referrers(); refs != nil {
+											for _, ref := range *refs {
+												if st, ok := ref.(*ssa.Store); ok && st.Addr == al {
+													mk = st.Val
+												}
+											}
+										}
+									}
+								} else if fv, ok := mk.(*ssa.FreeVar); ok {
+									mk = resolveFreeVarValue(fv)
+								}
+								mm, ok := mk.(*ssa.MakeMap)
+								if !ok || returned[mm] {
+									continue
+								}
+								n++
+								inside := inBody[mm.Parent()]
+								r.Ob(id, funcName(fn), "per-iteration container", mu.Pos(), inside, true,
+									ifs(inside, "the container written by the per-table callback is created inside it", "a container written by the per-table callback is created outside it and is not the result: what was selected for one table is still there for the next (columns leak between tables)"))
+							}
+						}
+					}
+				}
+			}
+		}
 	}
 	if n < 2 {
 		r.Anchor(id, fmt.Sprintf("filter/filter2: %d in-loop container writes, expected >= 2", n))
 	}
+}
+
+// paramCalledInLoop: parameter idx of fn (a function value) is called inside a loop of fn.
+func paramCalledInLoop(fn *ssa.Function, idx int) bool {
+	if idx >= len(fn.Params) {
+		return false
+	}
+	prm := fn.Params[idx]
+	for _, b := range fn.Blocks {
+		if loopHeaderOf(b) == nil {
+			continue
+		}
+		for _, ins := range b.Instrs {
+			if c, ok := ins.(*ssa.Call); ok && c.Call.Value == ssa.Value(prm) {
+				return true
+			}
+		}
+	}
+	return false
 }
 
 // resolveFreeVarCell: for a captured variable (by reference), the single value stored into its cell in the parent.
